@@ -12,7 +12,9 @@ CHECK = {
                    "VerifyingKey/MidnightVK headers and commitment lists, verifier parameters, proof element schedule, ZKIR "
                    "bincode programs and arity check) with theorems on what they accept; every case of the sweep runs the real "
                    "Rust decoder (panic or super-linear allocation = violation) and the model must predict its verdict class "
-                   "and decoded structure line by line; every key that decodes is used to verify a fixed valid proof",
+                   "and decoded structure line by line; every key that decodes is used to verify a fixed valid proof; what a checked "
+                   "decoder accepts is re-encoded and tested directly (canonical bytes, on the curve, [r]P = O for compressed points); "
+                   "the bincode sweep runs in a child process so that an allocation abort is caught and attributed to its input",
     "trusted_base": [
         "blst (sqrt, on-curve and subgroup tests) is modelled by Nat arithmetic mod p and a double-and-add [r]P computation; "
         "agreement is checked on every point of the sweep, the group law itself belongs to C11",
